@@ -1,0 +1,17 @@
+// SPDX-FileCopyrightText: 2026 verification hooks
+//
+// SPDX-License-Identifier: GPL-3.0-or-later
+
+//go:build verif
+// +build verif
+
+package routing
+
+// SimHook is set by the deterministic-simulation harness (build tag "verif" only).
+var SimHook func(point, key string)
+
+func simHook(point, key string) {
+	if f := SimHook; f != nil {
+		f(point, key)
+	}
+}
